@@ -359,6 +359,60 @@ def _raise(ex):
     return {"k": "raise", "exc": type(ex).__name__, "x": [], "coef": False, "coefr": [1, 1], "cpow": 1, "unk": [], "dim": [0] * 9}
 
 
+
+# value classes of the data being converted (case field "vc"): dtype, the two numbers, tolerance of the float comparisons
+VCS = {
+    "f64": ("f8", [3.0, 0.25], RTOL),
+    "f32": ("f4", [3.0, 0.25], 5e-6),
+    "i64": ("i8", [3, 7], RTOL),
+    "i32": ("i4", [3, 7], 5e-6),
+    "c128": ("c16", [3.0 + 2.0j, 0.25 - 1.0j], RTOL),
+    "c64": ("c8", [3.0 + 2.0j, 0.25 - 1.0j], 5e-6),
+}
+MOD_VARIANTS = {"in_base_mod": "in_base", "convert_mod": "convert_to_base", "gbe_mod": "gbe"}
+
+
+def _mod_registry():
+    """a registry of the caller's own in which every mass / length / time / temperature symbol without a zero point has
+    been redefined (modify) by a power of two: the quantity being converted lives there, the unit system does not"""
+    U = _U
+    if U.get("modreg") is None:
+        reg = U["UnitRegistry"]()
+        base4 = [_dimvec(getattr(U["dims"], n)) for n in ("mass", "length", "time", "temperature")]
+        for i, a in enumerate(_A["atoms"]):
+            if a["reg"] == 0 and not a["off"] and a["dim"] in base4:
+                sym = _A["names"][i + 1]
+                reg.modify(sym, float(reg.lut[sym][0]) * 2.0 ** (1 + i % 3))
+        U["modreg"] = reg
+    return U["modreg"]
+
+
+def _label(ru, registry, r, u0, orig, tol):
+    """does the returned unit object mean what its spelling means in the registry of the quantity that was converted?
+    scale = base_value / base_value of the freshly resolved spelling (snapped to a rational), off / dim = same zero point /
+    dimensions, back = the returned numbers read under the freshly resolved spelling convert back to the original"""
+    U = _U
+    out = {"scale": [1, 1], "off": True, "dim": True, "back": True}
+    try:
+        fresh = U["Unit"](ru.expr, registry=registry if registry is not None else u0.registry)
+    except Exception:  # noqa: BLE001 - the spelling does not resolve (reported through Known / unk)
+        return out
+    fb, rb = float(fresh.base_value), float(ru.base_value)
+    ratio = rb / fb if fb else 0.0
+    f = Fraction(ratio).limit_denominator(10**6)
+    out["scale"] = [f.numerator, f.denominator] if f.numerator and abs(float(f) - ratio) <= 1e-9 * abs(ratio) and f.numerator < 2**31 else [0, 1]
+    fo, ro = float(fresh.base_offset), float(ru.base_offset)
+    out["off"] = bool(abs(fo - ro) <= 1e-9 * max(abs(fo), abs(ro)))
+    out["dim"] = bool(fresh.dimensions == ru.dimensions)
+    if r is not None and out["dim"]:
+        try:
+            back = type(r)(r.d, fresh).in_units(u0)
+            out["back"] = _close(back.d, orig, _floor2(u0, fresh), tol)
+        except Exception:  # noqa: BLE001
+            out["back"] = False
+    return out
+
+
 def _apply(var, q, arr, sysarg, short):
     """run one entry point; returns (result object, is_unit)"""
     if var in ("in_base", "sysobj"):
@@ -390,14 +444,15 @@ def _apply(var, q, arr, sysarg, short):
     raise ValueError("unknown variant " + var)
 
 
-def _close(a, b, floor=0.0):
-    """float-vs-float agreement under RTOL; `floor` = magnitude below which differences are rounding of an offset"""
+def _close(a, b, floor=0.0, tol=RTOL):
+    """number-vs-number agreement under a relative tolerance (complex numbers compared as such); `floor` = magnitude below
+    which differences are rounding of an offset"""
     np = _U["np"]
-    a = np.asarray(a, dtype=float)
-    b = np.asarray(b, dtype=float)
+    a = np.asarray(a, dtype=complex)
+    b = np.asarray(b, dtype=complex)
     if a.shape != b.shape:
         return False
-    return bool(np.all(np.abs(a - b) <= RTOL * np.maximum(np.maximum(np.abs(a), np.abs(b)), floor)))
+    return bool(np.all(np.abs(a - b) <= tol * np.maximum(np.maximum(np.abs(a), np.abs(b)), floor)))
 
 
 def _floor(u):
@@ -418,24 +473,59 @@ def _in_range(*units):
     return True
 
 
+NOLAB = {"scale": [1, 1], "off": True, "dim": True, "back": True}
 NOINPUT = {"k": "noinput", "exc": "", "x": [], "coef": False, "coefr": [1, 1], "cpow": 1, "unk": [], "dim": [0] * 9, "back": True, "si": True,
+           "uoff": False, "lab": dict(NOLAB),
            "gbe": {"k": "noinput", "x": [], "coefr": [1, 1]}, "twice": {"k": "noinput", "x": [], "coefr": [1, 1], "same": True}}
 
 
-def _operate(var, x, sysname, sysobj, short, registry):
+def _vals_in_range(d):
+    """the numbers fit the data type with full precision (narrow floats: extreme unit scales end in sub-normals / inf)"""
+    np = _U["np"]
+    d = np.asarray(d)
+    if d.dtype.kind not in "fc":
+        return True
+    m = np.abs(d)
+    fi = np.finfo(d.dtype)
+    return bool(np.all(np.isfinite(m)) and np.all((m == 0) | ((m >= float(fi.tiny) * 1e4) & (m <= float(fi.max) * 1e-4))))
+
+
+def _fits(vals, u0, ru, tol):
+    """narrow value classes: the converted numbers (computed in double precision from the two scales) stay far inside the
+    range of a 32-bit float; otherwise the case is about the data type's range, not about C10"""
+    if tol == RTOL:
+        return True
+    f = float(u0.base_value) / float(ru.base_value)
+    return all(v == 0 or 1e-30 <= abs(v) * f <= 1e30 for v in vals) and 1e-30 <= f <= 1e30
+
+
+def _floor2(u0, ru):
+    """magnitude (in u0's unit) below which differences are rounding against the zero point of either unit"""
+    z = abs(float(ru.base_offset)) * abs(float(ru.base_value)) / abs(float(u0.base_value))
+    return max(_floor(u0), z)
+
+
+def _operate(var, x, sysname, sysobj, short, registry, vc="f64"):
     """the observation of one conversion (+ round trip, Unit-level twin, second application)"""
     U = _U
+    np = U["np"]
     ustr = _ustr(x)
-    vals = [3.0, 0.25]
+    dt, vals, tol = VCS[vc]
+    if var in MOD_VARIANTS:
+        var = MOD_VARIANTS[var]
+        registry = _mod_registry()
     try:
         if var in ("default", "default_conv"):
             if registry is None:
                 if sysname not in U["regs"]:
                     U["regs"][sysname] = U["UnitRegistry"](unit_system=sysname)
                 registry = U["regs"][sysname]
-        q = U["uq"](vals[0], ustr, registry=registry)
-        arr = U["ua"](list(vals), ustr, registry=registry)
+        data = np.array(vals, dtype=dt)
+        q = U["uq"](data[0], ustr, registry=registry, dtype=dt)
+        arr = U["ua"](data.copy(), ustr, registry=registry, dtype=dt)
         u0 = q.units
+        if q.dtype != np.dtype(dt) or arr.dtype != np.dtype(dt):
+            raise TypeError("value class not constructible")
     except Exception as ex:  # noqa: BLE001 - the unit cannot be built (e.g. product of offset units): no case
         o = dict(NOINPUT)
         o["exc"] = type(ex).__name__
@@ -448,7 +538,7 @@ def _operate(var, x, sysname, sysobj, short, registry):
     try:
         r, is_unit = _apply(var, q, arr, sysarg, short)
         o = _res(r, is_unit)
-        if not _in_range(u0, r if is_unit else r.units) or (not is_unit and not bool(U["np"].all(U["np"].isfinite(r.d)))):
+        if not _in_range(u0, r if is_unit else r.units) or (not is_unit and not (_vals_in_range(r.d) and _fits(vals, u0, r.units, tol))):
             # the scale of the unit over/underflows a double (e.g. dyn*W**2 in planck units): outside what C10 speaks about
             o = dict(NOINPUT)
             o["exc"] = "FloatRange"
@@ -462,6 +552,8 @@ def _operate(var, x, sysname, sysobj, short, registry):
             return o
     o["back"] = True
     o["si"] = True
+    o["uoff"] = False
+    o["lab"] = dict(NOLAB)
     o["twice"] = {"k": "none", "x": [], "coefr": [1, 1], "same": True}
     # Unit-level twin (on a fresh Unit object so the value-level call cannot have changed it)
     try:
@@ -471,17 +563,18 @@ def _operate(var, x, sysname, sysobj, short, registry):
         o["gbe"] = {"k": "raise", "x": [], "coefr": [1, 1], "exc": type(ex).__name__}
     if o["k"] != "ok":
         return o
+    ru = r if is_unit else r.units
+    o["uoff"] = bool(float(ru.base_offset) != 0.0)
+    o["lab"] = _label(ru, registry, None if is_unit else r, u0, orig, tol)
     if not is_unit:
         try:
             back = r.in_units(u0)
-            o["back"] = _close(back.d, orig, _floor(u0))
+            o["back"] = _close(back.d, orig, _floor2(u0, ru), tol)
         except Exception as ex:  # noqa: BLE001
             o["back"] = False
             o["backexc"] = type(ex).__name__
-        ru = r.units
         if ru.dimensions == u0.dimensions and ru.base_offset == 0 and u0.base_offset == 0:
-            np = U["np"]
-            o["si"] = _close(np.asarray(r.d, dtype=float) * ru.base_value, np.asarray(orig, dtype=float) * u0.base_value)
+            o["si"] = _close(np.asarray(r.d) * float(ru.base_value), np.asarray(orig) * float(u0.base_value), 0.0, tol)
     # second application through the same entry point
     try:
         if is_unit:
@@ -491,7 +584,7 @@ def _operate(var, x, sysname, sysobj, short, registry):
         else:
             q2 = r
             r2, _ = _apply(var, q2, q2, sysarg, short)
-            o["twice"] = dict(_ux(r2.units.expr), k="ok", same=_close(r2.d, r.d, _floor(r.units)))
+            o["twice"] = dict(_ux(r2.units.expr), k="ok", same=_close(r2.d, r.d, _floor(r.units), tol))
     except Exception as ex:  # noqa: BLE001
         o["twice"] = {"k": "raise", "x": [], "coefr": [1, 1], "same": False, "exc": type(ex).__name__}
     return o
@@ -502,12 +595,13 @@ def observe(case):
     U = _U
     x = sorted(case["x"], key=lambda t: (t[1], t[0], t[2]))
     var = case["var"]
+    vc = case.get("vc") or "f64"
     if case["sys"] >= 1:
         sd = _U["tab"]["systems"][case["sys"] - 1]
         if sd["reg"] == 1:
             reg, S = _code_registry()
-            return _operate(var, x, "code" if var not in ("sysobj",) else reg.unit_system_id, S, "", reg)
-        return _operate(var, x, sd["name"], U["usr"][sd["name"]], sd["short"], None)
+            return _operate(var, x, "code" if var not in ("sysobj",) else reg.unit_system_id, S, "", reg, vc)
+        return _operate(var, x, sd["name"], U["usr"][sd["name"]], sd["short"], None, vc)
     spec = case["spec"]
     name, S, made = _new_user_system(spec)
     try:
@@ -517,7 +611,7 @@ def observe(case):
             return o
         for d in spec["decl"]:
             _declare(S, d)
-        o = _operate(var, x, name, S, "", _code_registry()[0] if spec.get("reg", 0) == 1 else None)
+        o = _operate(var, x, name, S, "", _code_registry()[0] if spec.get("reg", 0) == 1 else None, vc)
         o["made"] = made
         return o
     finally:
